@@ -126,6 +126,16 @@ CLAIMED['C12'] = (
     'and templates not covered.',
     'contract-based deductive verification (AST->VC generator, z3 + cvc5), native replay by source extraction')
 
+CLAIMED['C11'] = (
+    'DESIGN.md 4 C11',
+    'Reduced scope. Proof for all 16-byte key ids and all seed bytes: hex_to_le_guid is RFC 4122 bytes_le (raw and textual '
+    'form), generate_content_key equals the published PlayReady key-seed algorithm (SHA-256 as an uninterpreted function of '
+    'its input bytes, seed truncated to 30 bytes, length checks raise ValueError), generate_checksum is the first 8 bytes of '
+    'AES-ECB(key, bytes_le(kid)).',
+    'Trusted: byte-string model (bit-vector lists), SHA-256 / AES-ECB uninterpreted. Not covered: WRMHEADER XML and its '
+    're-parse, PRO framing, ClearKey endpoint, ContentProtection elements (see evidence not_covered).',
+    'contract-based deductive verification (symbolic execution over fixed-length byte lists, z3), native replay')
+
 NOT_APPLICABLE = {
     'C05': 'XML documents come out of Jinja templates rendered by an external engine; no function contract reaches them and the app cannot be instantiated offline (flask_login missing).',
     'C07': 'Identity of string transducers (quote_plus, regex date parsing, split) over a registry built with getattr; SMT string solvers leave these undecided; a proof over only int/bool options would not decide the property.',
